@@ -86,7 +86,7 @@ let parse_val (toks : string array) (pos : int ref) : val0 =
   in
   go ()
 
-(* val -> canonical tokens (dict entries sorted by their printed form, like the harness) *)
+(* val -> tokens *)
 let rec tok_of_val (v : val0) : string list =
   match v with
   | VBase (b, n) -> [str_of_list (to_str (TBase b)); string_of_n n]
@@ -94,8 +94,8 @@ let rec tok_of_val (v : val0) : string list =
   | VArray (t, vs) -> ["a"; str_of_list (to_str t); string_of_int (List.length vs)] @ List.concat_map tok_of_val vs
   | VStruct vs -> ["r"; string_of_int (List.length vs)] @ List.concat_map tok_of_val vs
   | VDict (k, vt, kvs) ->
+      (* wire order; the check canonicalises (sorts, last duplicate key wins) *)
       let entries = List.map (fun (a, b) -> tok_of_val a @ tok_of_val b) kvs in
-      let entries = List.sort compare entries in
       ["e"; str_of_list (to_str (TBase k)); str_of_list (to_str vt); string_of_int (List.length kvs)] @ List.concat entries
   | VVariant (t, x) -> ["v"; str_of_list (to_str t)] @ tok_of_val x
 
@@ -146,6 +146,12 @@ let eval (line : string) : string =
       (match op_unmarshal_t be offset nfds e buf with
        | Ok (x, n) -> Printf.sprintf "ok %s %s" (string_of_n n) (String.concat " " (tok_of_val x))
        | o -> status o)
+  | "SE" ->
+      let be = be_of (next ()) in
+      let p = n_of_string (next ()) in
+      let v = parse_val toks pos in
+      let (bytes, ok) = op_spec be p v in
+      Printf.sprintf "spec=%s encodable=%s" (hex_of_list bytes) (b2s ok)
   | "VR" | "UP" ->
       let be = be_of (next ()) in
       let offset = n_of_string (next ()) in
